@@ -102,7 +102,10 @@ def run_population(res, pop, tier):
             m = make_spec(pop, kind, cfg.engine == "async")
             built = build(m)
             cids = [cid_of(SLOTS[i]) for i in pop]
-            combos = list(itertools.product(VALUES, repeat=len(pop)))
+            # triples (thorough tier) use a reduced value alphabet that still has None, a falsy
+            # non-None value, a list and a string
+            vals_for = VALUES if len(pop) <= 2 else (None, 0, [1, 2], "x")
+            combos = list(itertools.product(vals_for, repeat=len(pop)))
             # second pass (populations <= 1): the always-present `after` callback sends a nested
             # event whose own transition returns a value; it must never leak into the outer result
             passes = [(False, v) for v in combos]
